@@ -39,6 +39,86 @@ def gen_case(seed, i, engine):
     return core.Case("backend", lines, {"engine": engine, "keys": keys})
 
 
+def native_case(seed, i, engine):
+    """engines WITH native TTL (memkv, Badger): the backend hands the TTL to the engine. Judged at the engine
+    boundary (every batch's TTLs) and by behaviour: a re-created Event expires wholly and can be created again"""
+    r = rng_for(seed, "c17n/%d" % i)
+    ev = r.sample(EVENT_KEYS, 2)
+    look = r.sample(LOOKALIKES, 2)
+    lines = [hist.cfg_line(engine, eventsttl=1), "ttllog on"]
+    for k in ev + look:
+        lines += ["create %s %s" % (hx(k), hx(b"v1")), "rev"]
+    # delete + re-create before any compaction: the creator takes its compare-and-swap path over the deletion record
+    lines += ["delete %s 0" % hx(ev[0]), "rev", "create %s %s" % (hx(ev[0]), hx(b"v2")), "rev",
+              "delete %s 0" % hx(look[0]), "rev", "create %s %s" % (hx(look[0]), hx(b"v2")), "rev", "ttllog"]
+    lines += ["sleep 2600", "echo after-ttl"]
+    lines += ["get %s 0" % hx(k) for k in ev + look]
+    lines += ["create %s %s" % (hx(ev[0]), hx(b"again")), "rev", "get %s 0" % hx(ev[0])]
+    return core.Case("backend", lines, {"engine": engine, "native": True, "ev": ev, "look": look}, compare=lambda op: False)
+
+
+def raw_of(ik):
+    b = bytes.fromhex(ik)
+    return b[4:-9] if len(b) > 13 and b[:4] == b"\x57\xfb\x80\x8b" else None
+
+
+def native_oracle(case):
+    after = False
+    for i, (line, out) in enumerate(zip(case.lines, case.impl)):
+        t, o = line.split(), out.split()
+        if t[0] == "ttllog" and len(t) == 1 and len(o) == 2 and o[1] != "-":
+            for batch in o[1].split(";"):
+                ents = [(e.rsplit(":", 1)[0], int(e.rsplit(":", 1)[1])) for e in batch.split(",") if e]
+                ttls = {ttl for _, ttl in ents}
+                if len(ttls) > 1:
+                    return ("one batch hands different TTLs to the engine for the index record and the version of a key: %s "
+                            "(they would not expire together)" % batch, "index-version-ttl-differ")
+                for ik, ttl in ents:
+                    raw = raw_of(ik)
+                    if ttl != 0 and (raw is None or not is_event(raw)):
+                        return ("a TTL (%d) was handed to the engine for %s, which is not an Event key" % (ttl, raw), "ttl-on-non-event-key")
+        if t[0] == "echo" and t[1] == "after-ttl":
+            after = True
+            continue
+        if after and t[0] == "get" and len(o) >= 3:
+            k = hist.unhx(t[1])
+            if not is_event(k) and o[2] == "-":
+                return ("line %d: %s vanished after the TTL but is not an Event key" % (i + 1, k), "non-event-key-removed")
+        if after and t[0] == "create" and o[1] != "ok":
+            return ("line %d: an Event that reads absent after its TTL cannot be created again (%s -> %s): its index outlived its versions"
+                    % (i + 1, line, out), "expired-partially")
+    return None
+
+
+def concurrent_compact_case(variant):
+    """two compactions overlap inside the scanner's timeout-revision computation (its head()/pop() of the compaction
+    history; yield points = its own log lines): an Event written a moment ago must survive, only the old one may go"""
+    e1, e2 = PREFIX + b"/events/old", PREFIX + b"/events/young"
+    msg = hx(b"check compact history")
+    lines = [hist.cfg_line("tikv", eventsttl=1, ttl=TTL_MS), "gated 1",
+             "start p1 create %s 7631" % hx(e1), "stepto p1 none", "start k1 compact 0", "stepto k1 none", "sleep 1300",
+             "start p2 create %s 7632" % hx(e2), "stepto p2 none", "logarm " + msg,
+             "start k91 compact 0", "stepto k91 log", "start k92 compact 0", "stepto k92 log"]
+    if variant == 0:
+        lines += ["stepto k91 log", "stepto k91 none", "stepto k92 none"]
+    elif variant == 1:
+        lines += ["stepto k92 log", "stepto k92 none", "stepto k91 none"]
+    else:
+        lines += ["stepto k91 log", "stepto k92 log", "stepto k92 none", "stepto k91 none"]
+    lines += ["logarm -", "get %s 0" % hx(e2), "get %s 0" % hx(e1)]
+    return core.Case("backend", lines, {"engine": "tikv", "concurrent": True, "young": e2}, compare=lambda op: False)
+
+
+def concurrent_oracle(case):
+    for line, out in zip(case.lines, case.impl):
+        if line.startswith("get %s " % hx(case.meta["young"])) and out.split()[-1] == "-":
+            return ("an Event written a moment ago (TTL %d ms) was removed by two overlapping compactions: %s -> %s" % (TTL_MS, line, out),
+                    "expired-too-young")
+        if out.startswith("stuck") or "PANIC" in out:
+            return ("the overlapping compactions did not finish: %s -> %s" % (line, out), "compaction-stuck")
+    return None
+
+
 def oracle(case):
     ref = hist.Ref()
     clock = 0
@@ -96,10 +176,12 @@ def check(rep, tier, seed):
     n = 12 if tier == "quick" else 120
     # engines without native TTL run the scanner's expiry; with native TTL the engine's own clock applies
     cases = [gen_case(seed, i, "tikv") for i in range(n)]
+    cases += [concurrent_compact_case(v) for v in range(3)]
+    cases += [native_case(seed, i, ["badger", "memkv"][i % 2]) for i in range(4 if tier == "quick" else 24)]
     core.run_cases(cases, workers=14)
     for c in cases:
         rep.count_case(c)
-        hit = oracle(c)
+        hit = concurrent_oracle(c) if c.meta.get("concurrent") else native_oracle(c) if c.meta.get("native") else oracle(c)
         if hit:
             if core.handle_oracle_hit(rep, "C17", hit[1], c, hit[0], hit[1]):
                 return
